@@ -1,5 +1,5 @@
 /-
-Findings D18 and D19, witnessed on the model: a user-supplied `SincInterpolator` whose length is not
+Findings D18, D19 and D20, witnessed on the model: a user-supplied `SincInterpolator` whose length is not
 a multiple of 8 (`make_interpolator` always rounds up to a multiple of 8, `new_with_interpolator`
 takes whatever length the object reports).
 
@@ -9,6 +9,9 @@ takes whatever length the object reports).
 * D19: `SincFixedOut` with an interpolator of odd length reads one frame that was not supplied:
   the constructor (and `reset`) ask for `⌈chunk/ratio⌉ + L/2` frames with a truncating `L/2`, while
   the window of the last position reaches `L − L/2` frames beyond `⌈chunk/ratio⌉ − L/2 + …`.
+
+* D20: `SincFixedOut` with an interpolator of length 1 panics on its FIRST valid call when the output chunk is shorter
+  than the ratio (request 1 frame, buffer 4).
 
 All statements are closed terms over `ℚ`, checked by kernel evaluation.
 -/
@@ -192,6 +195,62 @@ its last position ends exactly where the loaded frames end -/
 theorem d19_control_not_stale :
     okSummary (outcomeOf 0 d19C0) = some (68, 16, false) ∧
     readEnd d19C0 60 = 2 * 8 + 68 := by
+  decide +kernel
+
+/-! ### D20: `SincFixedOut`, interpolator length 1, output chunk shorter than the ratio
+
+`SincFixedOut`, one channel, ratio 13, `max_resample_ratio_relative = 1`, chunk 12, linear interpolation between 3
+sub-filters, probe interpolator of length `len`.  With length 1 the constructor asks for `⌈12/13⌉ + 1/2 = 1` frame and
+allocates `2·1 + 2·1 = 4`; the first position of the first call already violates the assertion `index + len < wave.len()`
+of the interpolator. -/
+
+def d20State (len needed bufLen : ℕ) : AState ℚ ℚ :=
+  { kind := .sincOut, nch := 1, chunk := 12, maxChunk := 12, needed := needed, fill := needed,
+    lastIndex := -((len / 2 : ℕ) : ℚ), ratio := 13, orig := 13, target := 13, maxRel := 1, L := len,
+    deg := .cubic, sint := .linear, ip := probeInterp (ρ := ℚ) len 3,
+    buf := zeroBuf 1 bufLen, mask := [true] }
+
+theorem d20_needed :
+    neededInit 12 (13 : ℚ) 1 = 1 ∧ bufLenOut (1 : ℚ) 1 1 = 4 ∧
+    neededInit 12 (13 : ℚ) 2 = 2 ∧ bufLenOut (1 : ℚ) 2 2 = 8 := by
+  decide +kernel
+
+/-- length 1 -/
+def d20S0 : AState ℚ ℚ := d20State 1 1 4
+/-- control, length 2 -/
+def d20C0 : AState ℚ ℚ := d20State 2 2 8
+
+/-- D20: the constructor accepts the length-1 interpolator -/
+theorem d20_init :
+    AState.init .sincOut (13 : ℚ) 1 .cubic SincInterp.linear (probeInterp (ρ := ℚ) 1 3) 12 1 = .ok d20S0 := by
+  have hv : validateRatios (13 : ℚ) 1 = .ok () := by decide +kernel
+  simp only [AState.init, hv, AKind.isSinc, AKind.isFixedIn, if_true, Bool.false_eq_true, if_false,
+    d20_needed.1, d20_needed.2.1, d20S0, d20State, probeInterp]
+  norm_num
+
+/-- control: the constructor accepts the length-2 interpolator -/
+theorem d20_init_control :
+    AState.init .sincOut (13 : ℚ) 1 .cubic SincInterp.linear (probeInterp (ρ := ℚ) 2 3) 12 1 = .ok d20C0 := by
+  have hv : validateRatios (13 : ℚ) 1 = .ok () := by decide +kernel
+  simp only [AState.init, hv, AKind.isSinc, AKind.isFixedIn, if_true, Bool.false_eq_true, if_false,
+    d20_needed.2.2.1, d20_needed.2.2.2, d20C0, d20State, probeInterp]
+  norm_num
+
+/-- D20: the call is valid: exactly `input_frames_next() = 1` frame in, room for `output_frames_max() = 12` out -/
+theorem d20_args : d20S0.inputFramesNext = 1 ∧ d20S0.outputFramesMax = 12 ∧ d20S0.outputFramesNext = 12 := by
+  decide +kernel
+
+/-- **D20.**  The FIRST call after construction panics in `get_sinc_interpolated`. -/
+theorem d20_first_call_panics : panicSite (outcomeOf 0 d20S0) = some "get_sinc_interpolated" := by
+  decide +kernel
+
+theorem d20_panics : isPanic (outcomeOf 0 d20S0) = true := by
+  decide +kernel
+
+/-- control: with length 2 the first four calls of the same history succeed -/
+theorem d20_control_ok :
+    (okSummary (outcomeOf 0 d20C0)).isSome = true ∧ (okSummary (outcomeOf 1 d20C0)).isSome = true ∧
+    (okSummary (outcomeOf 2 d20C0)).isSome = true ∧ (okSummary (outcomeOf 3 d20C0)).isSome = true := by
   decide +kernel
 
 end Rubato.OddLength
